@@ -5,6 +5,7 @@ import (
 	"go/constant"
 	"go/token"
 	"go/types"
+	"sort"
 	"strings"
 
 	"golang.org/x/tools/go/ssa"
@@ -175,6 +176,7 @@ func checkC13(w *World, r *Report) {
 	r.Rule("C13.endtime", "P7", "stored minter parameters keep the shape the block routine relies on: parameter validation rejects, on every path, a last period with an EndTime and a non-last period without one, and accepts the two well-formed combinations (the validation step explored under the four combinations of position and nil-ness)", 4)
 	r.Rule("C13.endorder", "P7", "stored periods do not overlap: the validation step that compares a period's EndTime with the start of its period (params.StartTime for the first, the predecessor's EndTime afterwards - looked up in the list, or carried through the loop and then verified to be refreshed on every succeeding path) rejects before / equal and accepts after, for the first and for a later position", 6)
 	r.Rule("C13.loopvar", "P4", "= C03.loopvar over the parameter types of all three parameterised modules: validation must not keep the address of a per-loop variable beyond its iteration (a check made after the loop through such a pointer reads the last element: invalid parameter sets are accepted and stored); positive and negative controls", 6)
+	r.Rule("C13.errprop", "P5", "no verdict is lost inside parameter validation: on the Validate trees of the three parameter types the error of every call of a module validation function is returned directly or its non-nil edge ends in a return of a non-nil error", 10)
 	r.Rule("C13.current", "P5", "every cfeminter parameter write reachable from a message is reached only through the true edge of ContainsMinter(current state's SequenceId)", 2)
 	r.Rule("C13.denom", "P5", "the vesting denom update is reached only through the edge on which the list of all vesting pools is empty", 1)
 	if !ro.checkFloors(r) {
@@ -391,6 +393,7 @@ func checkC13(w *World, r *Report) {
 		containsMinterRule(w, r, "C13.current")
 		endTimeShapeRule(w, r, "C13.endtime")
 		endOrderRule(w, r, "C13.endorder")
+		validationErrpropRule(w, r, "C13.errprop")
 		loopVarRule(w, r, "C13.loopvar", "cfedistributor", "cfeminter", "cfevesting")
 		for _, h := range ro.MSG["cfeminter"] {
 			res := cg.GuardCover(h, func(s *Site) bool {
@@ -858,4 +861,74 @@ func boolResult(f *ssa.Function) bool {
 	}
 	b, ok := res.At(0).Type().Underlying().(*types.Basic)
 	return ok && b.Kind() == types.Bool
+}
+
+// validationErrpropRule (C13.errprop): stored parameters stay valid only if no verdict is lost inside validation: on the
+// Validate trees of the three parameter types, the error of every call of a module validation function is returned
+// (directly) or its non-nil edge ends in a return of a non-nil error - an error wrapped into a shadowed variable and a
+// return of the outer, still nil one accepts what the callee rejected.
+func validationErrpropRule(w *World, r *Report, rule string) {
+	cg := w.CG()
+	var roots []*ssa.Function
+	for _, m := range []string{"cfedistributor", "cfeminter", "cfevesting"} {
+		if T := w.NamedType("x/" + m + "/types.Params"); T != nil {
+			if f := w.methodOf(T, "Validate"); f != nil && f.Blocks != nil {
+				roots = append(roots, f)
+			}
+		}
+	}
+	if len(roots) == 0 {
+		r.Unk(rule, "Params.Validate of the parameterised modules", "", "no Params.Validate found")
+		return
+	}
+	var fns []*ssa.Function
+	for f := range cg.Reach(roots) {
+		if w.isProdFunc(f) && !isGeneratedFile(w.FileOf(f.Pos())) && strings.Contains(pkgPathOf(f), "/types") {
+			fns = append(fns, f)
+		}
+	}
+	sort.Slice(fns, func(i, j int) bool { return funcName(fns[i]) < funcName(fns[j]) })
+	seen := map[string]int{}
+	for _, f := range fns {
+		res := f.Signature.Results()
+		if res.Len() == 0 || !isErrorType(res.At(res.Len()-1).Type()) {
+			continue
+		}
+		for _, s := range cg.Sites[f] {
+			h := s.Static
+			call, isCall := s.Instr.(*ssa.Call)
+			if h == nil || !isCall || s.Invoke || !w.isProdFunc(h) {
+				continue
+			}
+			hr := h.Signature.Results()
+			if hr.Len() == 0 || !isErrorType(hr.At(hr.Len()-1).Type()) {
+				continue
+			}
+			key := fmt.Sprintf("%s: verdict of %s", funcName(f), h.Name())
+			seen[key]++
+			construct := key
+			if seen[key] > 1 {
+				construct = fmt.Sprintf("%s #%d", key, seen[key])
+			}
+			ev := errValues(f, call)
+			ok := false
+			// returned as it is
+			for _, ret := range Returns(f) {
+				rv := retVals(ret)
+				if len(rv) > 0 && ev[rv[len(rv)-1]] {
+					ok = true
+				}
+			}
+			fe := NilEdges(f, ev, false)
+			if len(fe) > 0 {
+				ok = true
+				for _, e := range fe {
+					if !FailsFrom(e.To()) {
+						ok = false
+					}
+				}
+			}
+			r.Check(ok, rule, construct, w.Pos(s.Instr.Pos()), "returned directly, or its non-nil edge ends in a return of a non-nil error", "the verdict of a validation step can be lost: on the edge on which it reports an error the validating function can still return nil - parameter sets the step rejects are accepted and stored")
+		}
+	}
 }
